@@ -170,6 +170,34 @@ func fallbackPrefix(c *core.Ctx, fd *ast.FuncDecl, info *types.Info) (prefix str
 		if len(ret.Results) != 1 {
 			continue
 		}
+		// equivalent spelling: <constant prefix> + strconv.FormatUint(uint64(c), 10) (or FormatInt / Itoa)
+		if be, isBin := astx.Unparen(ret.Results[0]).(*ast.BinaryExpr); isBin && be.Op == token.ADD {
+			pre, isConst := astx.ConstString(info, be.X)
+			conv, isCall := astx.Unparen(be.Y).(*ast.CallExpr)
+			if isConst && isCall && len(conv.Args) >= 1 {
+				callee := astx.Callee(info, conv)
+				decimal := false
+				switch {
+				case astx.IsPkgFunc(callee, "strconv", "Itoa") && len(conv.Args) == 1:
+					decimal = true
+				case (astx.IsPkgFunc(callee, "strconv", "FormatUint") || astx.IsPkgFunc(callee, "strconv", "FormatInt")) && len(conv.Args) == 2:
+					base, isC := astx.ConstInt(info, conv.Args[1])
+					decimal = isC && base == 10
+				}
+				if decimal {
+					operand := astx.Unparen(conv.Args[0])
+					if cv, ok := operand.(*ast.CallExpr); ok && len(cv.Args) == 1 {
+						if tv, ok := info.Types[cv.Fun]; ok && tv.IsType() {
+							operand = astx.Unparen(cv.Args[0])
+						}
+					}
+					if astx.ObjOf(info, operand) != recvObj(info, fd) {
+						c.Violation("String/fallback-operand", ret.Pos(), "fallback formats %s, not the receiver", types.ExprString(conv.Args[0]))
+					}
+					return pre, "%d", true
+				}
+			}
+		}
 		call, isCall := ret.Results[0].(*ast.CallExpr)
 		if !isCall || !astx.IsPkgFunc(astx.Callee(info, call), "fmt", "Sprintf") || len(call.Args) != 2 {
 			c.Undecided("String/fallback", ret.Pos(), "fallback return is not fmt.Sprintf(format, c)")
